@@ -156,9 +156,23 @@ func runCore(op string) (out string) {
 			}
 		}(i, c)
 	}
+	// waitEvent: an action that takes effect makes the proxy do at least one observable thing (forward a frame to
+	// a backend or answer the client); wait for it before looking for quiescence.
+	waitEvent := func(before int) {
+		for i := 0; i < 1500; i++ {
+			mu.Lock()
+			e := events
+			mu.Unlock()
+			if e > before {
+				return
+			}
+			time.Sleep(time.Millisecond)
+		}
+	}
+	evCount := func() int { mu.Lock(); defer mu.Unlock(); return events }
 	quiesce := func() {
 		last, stable := -1, 0
-		for i := 0; i < 400 && stable < 4; i++ {
+		for i := 0; i < 400 && stable < 5; i++ {
 			time.Sleep(2 * time.Millisecond)
 			mu.Lock()
 			e := events
@@ -189,8 +203,11 @@ func runCore(op string) (out string) {
 		return nil
 	}
 	for _, a := range acts {
+		before := evCount()
+		effective := false
 		switch a[0] {
 		case 'q':
+			effective = true
 			p := strings.Split(a[1:], ":")
 			cl, _ := strconv.Atoi(p[0])
 			st, _ := strconv.Atoi(p[1])
@@ -218,6 +235,7 @@ func runCore(op string) (out string) {
 				msg = errFor(p[1], tag)
 			}
 			_ = h.rq.Conn.Send(h.rq.Header.Version, h.rq.Header.StreamId, msg)
+			effective = true
 		case 'k':
 			token, _ := strconv.Atoi(a[1:])
 			h := takeHeld(token)
@@ -235,6 +253,10 @@ func runCore(op string) (out string) {
 			held = keep
 			mu.Unlock()
 			h.rq.Conn.Close()
+			effective = true
+		}
+		if effective {
+			waitEvent(before)
 		}
 		quiesce()
 	}
